@@ -26,3 +26,15 @@ func VerifGuardedSniffer(data []byte) *Sniffer {
 
 // VerifBufCap reports len/cap of the internal buffer (diagnostics in replay files).
 func (s *Sniffer) VerifBufCap() (int, int) { return s.buf.Len(), s.buf.Cap() }
+
+// VerifReadWouldBlock reports whether the data-ready gate is shut, i.e. whether Read / TakeRelayPrefix called now would
+// wait for somebody to open it. After SniffTcp has returned on the read-deadline path (no goroutine of the sniffer is
+// left) nobody ever will: the relay would hang for ever.
+func (s *Sniffer) VerifReadWouldBlock() bool {
+	select {
+	case <-s.dataReady:
+		return false
+	default:
+		return true
+	}
+}
